@@ -137,6 +137,11 @@ Remove(s) ==
 Rename(s) ==
   IF s.link # "f" THEN Fail("FAIL", s, "rename/missing")
   ELSE Res("ok", 0, << >>, None, FALSE, [s EXCEPT !.link = "g"], "rename/ok")
+\* another file is renamed onto the name: the name now belongs to that file (link = "other"), the handles keep the
+\* old one, which has no name any more; nothing done through them may show up under the name
+Replace(s) ==
+  IF s.link # "f" THEN Fail("FAIL", s, "replace/missing")
+  ELSE Res("ok", 0, << >>, None, FALSE, [s EXCEPT !.link = "other"], "replace/ok")
 
 -----------------------------------------------------------------------------
 C(op, h, n, off, bs, wh, acc, app, tr) ==
@@ -152,12 +157,13 @@ Calls ==
   \cup { C("seek", i, 0, o, << >>, w, "RO", FALSE, FALSE) : i \in HS, o \in Offs, w \in Whences }
   \cup { C("truncate", i, 0, o, << >>, 0, "RO", FALSE, FALSE) : i \in HS, o \in Offs }
   \cup { C(op, i, 0, 0, << >>, 0, "RO", FALSE, FALSE) : i \in HS, op \in {"stat", "close", "sync", "chmod", "readdir"} }
-  \cup (IF NsOps THEN { C(op, 0, 0, 0, << >>, 0, "RO", FALSE, FALSE) : op \in {"remove", "rename"} } ELSE {})
+  \cup (IF NsOps THEN { C(op, 0, 0, 0, << >>, 0, "RO", FALSE, FALSE) : op \in {"remove", "rename", "replace"} } ELSE {})
 
 \* a call is part of the model when its handle slot is in the right life-cycle state
 Enabled(s, c) ==
-  CASE c.op = "open" -> H(s, c.h).s = "unused"
-    [] c.op \in {"remove", "rename"} -> TRUE
+  CASE c.op = "open" -> H(s, c.h).s = "unused" /\ s.link # "other"   \* (opening the other file is not part of this model)
+    [] c.op \in {"remove", "rename"} -> s.link # "other"
+    [] c.op = "replace" -> s.link = "f"   \* (renaming onto a free name is FSCore's business)
     [] OTHER -> H(s, c.h).s # "unused"
 
 Eval(s, c) ==
@@ -172,6 +178,7 @@ Eval(s, c) ==
     [] c.op = "close"    -> Close(s, c.h)
     [] c.op = "remove"   -> Remove(s)
     [] c.op = "rename"   -> Rename(s)
+    [] c.op = "replace"  -> Replace(s)
     [] OTHER             -> Misc(s, c.h, c.op)
 
 \* bounds of the model: file length and offsets
@@ -204,17 +211,17 @@ ModelProps ==
     \* a failing call changes nothing
     /\ (r.e \in {"FAIL", "ECLOSED", "EOF"} /\ r.n = 0 => r.st = st)
     \* a read-only handle never changes contents, a write-only handle never reads them
-    /\ (c.op \notin {"open", "remove", "rename"} /\ h.s = "open" /\ h.acc = "RO" => r.st.data = st.data)
+    /\ (c.op \notin {"open", "remove", "rename", "replace"} /\ h.s = "open" /\ h.acc = "RO" => r.st.data = st.data)
     /\ (c.op \in {"read", "readat"} /\ h.acc = "WO" => r.n = 0 /\ r.e # "ok")
     \* EOF never before all bytes were delivered
     /\ (c.op = "read" /\ r.e = "EOF" => h.off >= Len(st.data))
     /\ (c.op = "readat" /\ r.e = "EOF" => c.off + r.n >= Len(st.data))
     \* handles are independent: a call on one handle leaves every other handle alone
-    /\ (c.op \notin {"remove", "rename"} => \A j \in HS \ {c.h} : r.st.hs[j] = st.hs[j])
+    /\ (c.op \notin {"remove", "rename", "replace"} => \A j \in HS \ {c.h} : r.st.hs[j] = st.hs[j])
     \* every call on a closed handle fails
-    /\ (c.op \notin {"open", "remove", "rename"} /\ h.s = "closed" => r.e \in {"FAIL", "ECLOSED", "ZERO"} /\ r.st = st)
+    /\ (c.op \notin {"open", "remove", "rename", "replace"} /\ h.s = "closed" => r.e \in {"FAIL", "ECLOSED", "ZERO"} /\ r.st = st)
     \* handle I/O never changes which name is linked (no resurrection)
-    /\ (c.op \notin {"remove", "rename"} => r.st.link = st.link)
+    /\ (c.op \notin {"remove", "rename", "replace"} => r.st.link = st.link)
     \* offsets never negative; gaps are zero-filled
     /\ (\A j \in HS : r.st.hs[j].off >= 0)
     /\ (c.op \in {"write", "writeat", "truncate"} /\ r.e = "ok" /\ r.n + Len(c.bs) >= 0 =>
